@@ -737,6 +737,7 @@ def run(ctx):
             judge_case(ctx, case, R, M)
         if len(ctx.violations) > 20:
             break
+    piecewise_stratum(ctx)
     # trajectories: quick = the two corpus models that convert; thorough = generated ones incl. stiff
     tcases = [dict(c, t_end=2) for c in corpus() if c["tag"] in ("jac-closure", "decl-order")]
     if ctx.tier == "thorough":
@@ -751,6 +752,44 @@ def run(ctx):
     ctx.extra_cov["trajectory_runs_in_which_the_Jacobian_was_called"] = used
     if used == 0:
         ctx.violation({"trajectories": len(tcases)}, "no trajectory run ever called the Jacobian", "trajectory stratum is vacuous")
+
+
+def piecewise_stratum(ctx):
+    """oracle-only (M = None): models whose rate laws switch on comparisons, evaluated exactly at, just below and
+    just above every threshold; the lambdified symbolic equations must equal the numeric right-hand side"""
+    import itertools
+
+    import sympy
+
+    from mxlpy import Model
+    from mxlpy.symbolic import to_symbolic_model
+
+    from . import c12_pwlib as L
+
+    specs = [(L.pw_le, 1), (L.pw_lt, 1), (L.pw_ge, 1), (L.pw_gt, 1), (L.pw_window, 2), (L.pw_window2, 2), (L.pw_elif, 2)]
+    for (fn, nthr), (lo, hi, k) in itertools.product(specs, [(1.0, 3.0, 2.0), (2.0, 5.0, 0.5), (0.0, 4.0, 3.0)]):
+        m = Model().add_variable("x", 1.0).add_variable("y", 0.0).add_parameter("k", k).add_parameter("lo", lo)
+        m.add_parameter("hi", hi)
+        args = ["x", "lo", "k"] if nthr == 1 else ["x", "lo", "hi", "k"]
+        m.add_reaction("r", fn=fn, args=args, stoichiometry={"x": -1.0, "y": 1.0})
+        case = {"piecewise": fn.__name__, "lo": lo, "hi": hi, "k": k}
+        try:
+            sm = to_symbolic_model(m)
+        except Exception as e:  # noqa: BLE001  refusing is allowed by the property
+            ctx.hist["piecewise_refused"] = ctx.hist.get("piecewise_refused", 0) + 1
+            continue
+        vs, ps = list(sm.variables.values()), list(sm.parameters.values())
+        pv = [float(sm.parameter_values[q]) for q in sm.parameters]
+        f = sympy.lambdify((vs, ps), sympy.Matrix(sm.eqs))
+        for x in sorted({lo - 1, lo, lo + 1, hi - 1, hi, hi + 1, (lo + hi) / 2}):
+            num_ = [float(v) for v in m(0.0, [x, 0.0])]
+            import numpy as np
+
+            sym_ = [float(v) for v in np.asarray(f([x, 0.0], pv), dtype=float).ravel()]
+            sub = dict(case, x=x)
+            ctx.count(sub, "piecewise-boundary", True)
+            ctx.judge(sub, [num(v) for v in sym_], [num(v) for v in num_], None,
+                      what="symbolic equations = numeric derivatives at a comparison threshold (oracle-only stratum)")
 
 
 def replay(ctx, rp):
